@@ -1,10 +1,12 @@
 """C20 - reported aggregates depend only on what was asked for, and add up"""
 
 import itertools
+import pickle
 import os
 import shutil
 import tempfile
 import numpy as np
+import sciris as sc
 import atomica as at
 
 from mc.oracles import V
@@ -41,7 +43,7 @@ def make_world():
             dict(name="rec", fmt="rate", ts=1 / 12, val=0.05),
             dict(name="back", fmt="rate", val=0.2),
         ],
-        links=[["a", "b", "inf"], ["b", "c", "rec"], ["c", "a", "back"], ["a", "c", "pr2"]],
+        links=[["a", "b", "inf"], ["b", "c", "rec"], ["c", "a", "back"], ["b", "a", "back"], ["a", "c", "pr2"]],  # "back" drives two transitions
         characs=[
             dict(name="alive", comps=["a", "b", "c"], val={"pa": {"t": [S0, S0 + 1], "v": [125.0, 122.0]}, "pb": {"t": [S0, S0 + 1], "v": [46.0, 53.0]}}),
             dict(name="ab", comps=["a", "b"], val={"pa": {"t": [S0, S0 + 1], "v": [120.0, 115.0]}, "pb": {"t": [S0, S0 + 1], "v": [45.0, 51.0]}}),
@@ -84,7 +86,7 @@ def cases(tier):
             yield dict(kind="popselect", sel=list(sel))
     yield dict(kind="cascade_results")
     yield dict(kind="cascade_data")
-    ops = ["plotdata", "plot_series", "plot_bars", "plot_cascade", "cascade_vals", "export", "result_plot", "get_variable", "plotdata_flows"]
+    ops = ["plotdata", "plot_series", "plot_bars", "plot_cascade", "cascade_vals", "export", "result_plot", "get_variable", "plotdata_flows", "copy"]
     for d in (1, 2, 3):
         for seq in itertools.product(ops, repeat=d):
             if d == 3 and tier == "quick" and seq[0] not in ("plotdata", "cascade_vals", "get_variable"):
@@ -170,7 +172,7 @@ def run_popselect(case):
     sel = [POPITEMS[i] for i in case["sel"]]
     vs = []
     ncalls = ncmp = 0
-    for o, pagg, tr in itertools.product(OUTPUTS[:6], PAGG, ("raw", "tagg_int")):
+    for o, pagg, tr in itertools.product(OUTPUTS, PAGG, ("raw", "tagg_int")):
         singles = []
         for it in sel:
             key = ("popsingle", oname(o), oname(it), pagg, tr)
@@ -351,7 +353,7 @@ def run_purity(case):
     import matplotlib.pyplot as plt
 
     w, r = make_world()
-    h0 = snap_hash(r, volatile=("_fcn",))
+    h0 = snap_hash(r, volatile=("_fcn", "_exec_order"))
     vs = []
     tmp = tempfile.mkdtemp(prefix="c20_", dir="/dev/shm" if os.path.isdir("/dev/shm") else None)
     try:
@@ -370,6 +372,16 @@ def run_purity(case):
                 at.export_results([r], os.path.join(tmp, f"e{i}.xlsx"))
             elif op == "result_plot":
                 r.plot()
+            elif op == "copy":
+                # copying / pickling a result (saving a project, parallel runs) is not an edit of the result
+                sc.dcp(r)
+                pickle.dumps(r)
+                for nm, parts in (("back:flow", ("c:a", "b:a")),):
+                    for pop in r.model.pops:
+                        tot = sum(np.asarray(v.vals, dtype=float) for v in pop.get_variable(nm))
+                        exp = sum(np.asarray(v.vals, dtype=float) for p_ in parts for v in pop.get_variable(p_))
+                        if not np.allclose(tot, exp, rtol=1e-12, equal_nan=True):
+                            vs.append(V("flow-total-not-sum-of-parts", f"after {case['seq'][: i + 1]}: {nm} in {pop.name} is not the sum of {parts}", None))
             elif op == "get_variable":
                 # the accessor the plotting / export code uses to find out which populations hold an output: flows by name, all populations
                 for nm in ("a:b", "inf:flow", ":c", "a:", "a", "prev", "inf"):
@@ -378,7 +390,7 @@ def run_purity(case):
                 at.PlotData(r, outputs=["a:b", ":c", "inf:flow"], pops="total")
                 at.PlotData(r, outputs=["a:", "rec:flow"], pops=["pb", "pa"])
             plt.close("all")
-            if snap_hash(r, volatile=("_fcn",)) != h0:
+            if snap_hash(r, volatile=("_fcn", "_exec_order")) != h0:
                 vs.append(V("reporting-modifies-result", f"after {case['seq'][: i + 1]} the result object differs from its state before reporting", None))
                 break
     finally:
